@@ -419,9 +419,14 @@ def oracle(case, out):
     # a handle_client_request chain that ended in None: nothing is queued for upstream before the next chain starts
     for g in groups:
         if g['hook'] == 'HCR' and rets.get(g['idx'][-1], ('value',))[0] == 'none':
+            dropped = log[g['idx'][-1]][3][1]        # the request the dropping plugin was given
+            if dropped['tunnel']:
+                # a CONNECT is never forwarded itself; bytes the client sends afterwards (even in the same segment) are
+                # later tunnel data the clause does not speak about (recorded quirk: no 200 is sent, yet they are relayed)
+                continue
             j = g['idx'][-1] + 1
             while j < len(log) and log[j][0] not in ('step', 'call'):      # the rest of this handler step
-                if log[j][0] == 'qup':
+                if log[j][0] == 'qup' and log[j][1].startswith(dropped['method'] + b' '):
                     return 'a plugin returned None from handle_client_request but the request was forwarded'
                 j += 1
     # connect happens after the whole BUC chain and before the first HCR call
